@@ -100,3 +100,22 @@ Print Assumptions C06_text_untouched.
 Print Assumptions C06_none_policy.
 Print Assumptions C06_columnwise.
 Print Assumptions C06_length.
+
+(* ---- the NULL -> NaN loop is the Python's -----------------------------------------------------------
+   null_columns / bind_columns / data_for_curves equal the block of LASFile.read from
+   `data_assigned_to_curves = {...}` to the end of the data-section loop, re-translated on every run
+   from /repo (translators/funcs.py -> Gen/Funcs.v: py_bind_columns): which columns are scanned
+   (version_NULL = the strict policy, dtype float, not the index), that the samples equal to the NULL value
+   and nothing else become NaN, and how the columns are bound to the curves.  The numpy operations are the
+   operations of bind_rops (Proofs/FuncsPinBind.v), read on lists of cells; the columns have one common
+   length L (the engines yield the columns of a rectangular array). *)
+Require Import Num SectionParse Read Funcs FuncsPinBind.
+Theorem C06_null_bind_current : forall numeq tr strict pn items datas cols L,
+  List.length datas = List.length items ->
+  (forall c, In c cols -> List.length c = L) ->
+  py_bind_columns (bind_rops numeq tr) (combine items datas) cols strict pn
+  = Some (let cols' := null_columns (nulleq numeq pn) strict 0 cols in
+          let items' := bind_columns tr items 0 cols' in
+          combine items' (data_for_curves (List.length items') cols')).
+Proof. exact bind_pin. Qed.
+Print Assumptions C06_null_bind_current.
